@@ -111,6 +111,7 @@ static std::string handle(const std::string& cmd, const std::string& args) {
       for (Entity& e : st.entities) { e.full_sequence.clear(); e.reflects_microhetero = false; e.dbrefs.clear(); }
     if (!groups.struct_ref) for (Entity& e : st.entities) e.dbrefs.clear();
     if (!groups.symmetry || !groups.cell) st.connections.clear();
+    if (!groups.ncs) { st.ncs.clear(); st.setup_cell_images(); }   // NCS operators contribute images to the LINK symmetry codes
     std::string t1 = doc_text(make_mmcif_document(st, groups));
     Structure st2 = from_cif_text(t1);
     std::string t2 = doc_text(make_mmcif_document(st2, groups));
